@@ -5,12 +5,17 @@
    centre P = P - ones^T *m ((k+1)^-1 *: (ones *m P))     the code's  X[nbhd] - np.mean(X[nbhd], axis=0);
    gramT Y = Y^T *m Y  (d x d, its eigenvalues are the squared singular values);   gramS Y = Y *m Y^T  ((k+1) x (k+1));
    edge j = e_j - e_0, so  edge j *m centre P  is the difference vector "neighbour j minus the sample" (Z_i[j] of the code).
-   These theorems are about mathcomp matrices; the executable model (Model/GeoRank.v, Model/GeoEllipsoid.v) works on lists,
-   where the same facts are COMPUTED on every recorded neighbourhood by the correspondence (check_rank_case) and the
-   column-sum fact is also proved (C12.v: C12_centred_columns_sum_to_zero_on_lists).  No refinement between 'M_(m,n) and
-   lists is proved (same situation as C08 / C08Mx). *)
+   The first group of theorems is about mathcomp matrices.  The second group (LIST MODEL, below) transports them through
+   LinAlgBridge.v / GeoRankBridge.v to the executable functions the correspondence evaluates on every recorded neighbourhood
+   (Model/GeoEllipsoid.centred, gram; Model/GeoRank.zdet, gram_rows, rank_one; Model/Gauss.det_piv): the cofactor-expansion
+   determinant IS \det, the executable centring IS (k+1) x GeoRankMx.centre, and both Gram determinants of a centred
+   neighbourhood vanish for EVERY input (k < d for the d x d one) -- no longer only computed case by case. *)
+From Coq Require Import QArith ZArith List.
 From mathcomp Require Import all_ssreflect all_algebra.
-From CE Require Import GeoRankMx.
+From mathcomp Require Import ssrZ.
+From CE Require Import GeoRankMx GeneratorsMxBridge LinAlgBridge GeoRankBridge.
+From CE Require Model.Gauss Model.GeoKnn Model.GeoEllipsoid Model.GeoRank.
+Close Scope Q_scope. Close Scope Z_scope.
 Set Implicit Arguments. Unset Strict Implicit. Unset Printing Implicit Defensive.
 Local Open Scope ring_scope.
 
@@ -84,3 +89,56 @@ Theorem C12_gram_rank_is_matrix_rank_over_ordered_fields :
   forall (R : realFieldType) (k d : nat) (Y : 'M[R]_(k.+1, d)), \rank (gramT Y) = \rank Y.
 Proof. exact: rank_gramT. Qed.
 Print Assumptions C12_gram_rank_is_matrix_rank_over_ordered_fields.
+
+(* ================================ LIST MODEL (refinement lists <-> 'M[rat]_(m, n)) ================================ *)
+(* mx_of_zmat n m M : 'M[rat]_(n, m) has entry (i, j) = Zrat (nth j (nth i M [::]) 0);  Zrat : Z -> rat the ring embedding;
+   mx_of_mat likewise for lists over Q with Qrat : Q -> rat *)
+
+(* the cofactor expansion of Model/GeoRank.v computes the determinant: every n, every list matrix with n rows *)
+Theorem C12_cofactor_expansion_on_lists_is_the_determinant :
+  forall (n : nat) (M : seq (seq Z)), size M = n -> Zrat (GeoRank.zdet n M) = \det (mx_of_zmat n n M).
+Proof. exact: zdet_det. Qed.
+Print Assumptions C12_cofactor_expansion_on_lists_is_the_determinant.
+
+(* ... and whenever Model/Gauss.v's elimination without pivoting succeeds on an integer matrix it returns the same number *)
+Theorem C12_elimination_agrees_with_cofactor_expansion :
+  forall (n : nat) (M : seq (seq Z)) (q : Q), wf_mat n n M ->
+  Gauss.det_piv (List.map (List.map inject_Z) M) = Some q -> Qeq q (inject_Z (GeoRank.zdet n M)).
+Proof. exact: det_piv_zdet. Qed.
+Print Assumptions C12_elimination_agrees_with_cofactor_expansion.
+
+(* the executable centring (integers, no division) is (k+1) x the mathcomp centring of the same points, and the two
+   executable Gram matrices are gramT / gramS of it *)
+Theorem C12_executable_centring_is_the_mathcomp_centring :
+  forall (k d : nat) (nb : seq (seq Z)), size nb = k.+1 -> List.Forall (fun q => List.length q = d) nb ->
+  mx_of_zmat k.+1 d (GeoEllipsoid.centred nb d) = (k.+1)%:R *: centre (mx_of_zmat k.+1 d nb) /\
+  mx_of_zmat d d (GeoEllipsoid.gram (GeoEllipsoid.centred nb d) d) = gramT (mx_of_zmat k.+1 d (GeoEllipsoid.centred nb d)) /\
+  mx_of_zmat k.+1 k.+1 (GeoRank.gram_rows (GeoEllipsoid.centred nb d)) = gramS (mx_of_zmat k.+1 d (GeoEllipsoid.centred nb d)).
+Proof. exact: centred_mx_facts. Qed.
+Print Assumptions C12_executable_centring_is_the_mathcomp_centring.
+
+(* THE RANK FACT ON LISTS, every neighbourhood (k+1 = length nb points of length d), every k and d: det (A A^T) = 0 always;
+   k < d: det (A^T A) = 0 by cofactor expansion AND Model/Gauss.v's elimination meets a zero pivot
+   (transport of C12_gram_matrix_singular_when_k_lt_d_rat and of det (gramS (centre P)) = 0) *)
+Theorem C12_gram_determinants_of_a_centred_neighbourhood_vanish_on_lists :
+  forall (nb : seq (seq Z)) (d : nat), nb <> [::] -> List.Forall (fun q => List.length q = d) nb ->
+  GeoRank.zdet (List.length nb) (GeoRank.gram_rows (GeoEllipsoid.centred nb d)) = Z0 /\
+  ((List.length nb <= d)%coq_nat ->
+     GeoRank.zdet d (GeoEllipsoid.gram (GeoEllipsoid.centred nb d) d) = Z0 /\
+     Gauss.det_piv (List.map (List.map inject_Z) (GeoEllipsoid.gram (GeoEllipsoid.centred nb d) d)) = None).
+Proof. exact: centred_gram_determinants. Qed.
+Print Assumptions C12_gram_determinants_of_a_centred_neighbourhood_vanish_on_lists.
+
+(* hence the per-neighbourhood check of the correspondence (Model/GeoRank.rank_one) is, for every well-shaped input, exactly
+   the comparison with the recorded singular values -- s0 > 0 and, for k < d, trailing^2 * 1e12 <= leading^2 -- plus, for
+   k >= d, "the Gram matrix is non-singular": every exact-arithmetic conjunct (column sums, both cofactor determinants,
+   the zero pivot, agreement of the two determinant functions) is a theorem *)
+Theorem C12_rank_check_exact_arithmetic_part_is_a_theorem :
+  forall (d : nat) (p : seq Z) (l : seq (seq Z)) (s0 st : Q), List.Forall (fun q => List.length q = d) (p :: l) ->
+  GeoRank.rank_one d p l s0 st =
+  negb (Qle_bool s0 (Qmake Z0 xH)) &&
+  (if Nat.ltb (List.length l) d then Qle_bool (Qmult st GeoRank.E12) s0
+   else if Gauss.det_piv (List.map (List.map inject_Z) (GeoEllipsoid.gram (GeoEllipsoid.centred (p :: l) d) d)) is Some _
+        then true else false).
+Proof. exact: rank_one_exact_part. Qed.
+Print Assumptions C12_rank_check_exact_arithmetic_part_is_a_theorem.
